@@ -34,7 +34,7 @@ def onCurve (pk : Bytes) : Bool := (VrfCurve.fromBytes (VrfCurve.fit 32 pk)).2
 def showVerify (pk : Bytes) (r : Except Vrf.Err Bool) : String :=
   match r with
   | .error _ => "err-decode"
-  | .ok b => if !onCurve pk then "unmodelled" else if b then "true" else "false"
+  | .ok b => if b then "true" else "false"
 
 def step (_ : Unit) (line : String) : Unit × String :=
   let ans : String :=
@@ -80,6 +80,16 @@ def step (_ : Unit) (line : String) : Unit × String :=
           toHex (VrfCurve.hashPoints (f a) (f b) (f c) (f d))
         else "bad-op"
       | _ => "bad-op"
+    | ["smul", k, a] => match hexs [k, a] with
+      | some [k, a] =>
+        if k.length = 32 ∧ a.length = 32 then
+          toHex (VrfCurve.encode (VrfCurve.smul (VrfCurve.leToNat k) (VrfCurve.fromBytes a).1))
+        else "bad-op"
+      | _ => "bad-op"
+    | ["slide", k] => match ofHex? k with
+      | some k => if k.length = 32 then
+          String.intercalate "," ((VrfCurve.slide (VrfCurve.leToNat k)).map toString) else "bad-op"
+      | none => "bad-op"
     | ["smulb", k] => match ofHex? k with
       | some k => if k.length = 32 then toHex (VrfCurve.encode (VrfCurve.smulBase (VrfCurve.leToNat k))) else "bad-op"
       | none => "bad-op"
@@ -129,7 +139,6 @@ def step (_ : Unit) (line : String) : Unit × String :=
       match thr.toNat?, hexs [pk, pv, msg], h.toNat?, w.toNat?, t.toNat?, tq.toNat?, ptq.toNat? with
       | some thr, some [pk, pv, msg], some h, some w, some t, some tq, some ptq =>
         if h < Qn.two64 ∧ w < Qn.two64 ∧ t < Qn.two64 ∧ tq < Qn.two64 ∧ ptq < Qn.two64 then
-          if !onCurve pk then "unmodelled" else
           match Qn.verifyBlockVRF params thr pk (beToNat pv) msg h w t tq ptq with
           | .verifyErr _ => "err-decode"
           | .verifyFalse => "false"
